@@ -103,6 +103,24 @@ func UserFuns() []*Fun {
 	}
 }
 
+// NotOverride is a host function registered under the exact signature of the
+// built-in '!' on bool (replacing it): same result, but the call is observable.
+func NotOverride() *Fun {
+	return &Fun{Name: "!", Params: []*Ty{TBool}, Ret: TBool, User: "!bool",
+		Impl: traced("!", func(_ *Ty, x []Arg) *V { return VBool(!x[0].V.B) })}
+}
+
+// Push mutates its first argument in place (a host function is free to do
+// that with a value the engine handed to it) and returns it.
+func Push() *Fun {
+	a := TVar("a")
+	return &Fun{Name: "push", Params: []*Ty{TList(a), a}, Ret: TList(a), User: "push",
+		Impl: traced("push", func(_ *Ty, x []Arg) *V {
+			x[0].V.L = append(x[0].V.L, x[1].V)
+			return x[0].V
+		})}
+}
+
 // Twice forces its thunk twice (profile-only: debug mode excludes it).
 func Twice() *Fun {
 	a := TVar("a")
